@@ -48,9 +48,29 @@ def census(trees):
     for path, tree in trees.items():
         mod = modname_of(path)
         for kind, owner, node in _defs(tree):
-            out.add('%s.%s' % (mod, node.name) if owner is None else
-                    '%s.%s.%s' % (mod, owner.name, node.name))
+            q = '%s.%s' % (mod, node.name) if owner is None else \
+                '%s.%s.%s' % (mod, owner.name, node.name)
+            out.add(q)
+            for nq, parent, sub in _nested_defs(q, node):
+                out.add(nq)
     return out
+
+
+def _nested_defs(q, node):
+    """(qname, enclosing function node, def node) of the functions defined
+    inside function `node` (Program naming: a.b.<locals>.c)."""
+    stack = [(q, node)]
+    while stack:
+        pq, parent = stack.pop()
+        todo = list(ast.iter_child_nodes(parent))
+        while todo:
+            n = todo.pop()
+            if isinstance(n, (ast.FunctionDef, ast.AsyncFunctionDef)):
+                nq = '%s.<locals>.%s' % (pq, n.name)
+                yield nq, parent, n
+                stack.append((nq, n))
+            elif not isinstance(n, (ast.ClassDef, ast.Lambda)):
+                todo.extend(ast.iter_child_nodes(n))
 
 
 def _defs(tree):
@@ -717,9 +737,96 @@ class Inliner:
                         continue
                     if self._inline(path, q, k, owner, node):
                         progress = True
+                # closures defined inside a function the census knows
+                for kind, owner, node in list(_defs(tree)):
+                    q = '%s.%s' % (mod, node.name) if owner is None else \
+                        '%s.%s.%s' % (mod, owner.name, node.name)
+                    for nq, parent, sub in list(_nested_defs(q, node)):
+                        if nq in self.known or sub.decorator_list or \
+                                _eligible('func', None, sub) is None:
+                            continue
+                        if self._inline_nested(path, nq, parent, sub):
+                            progress = True
             if not progress:
                 break
         return self.log
+
+    def _inline_nested(self, path, q, parent, node):
+        """A closure that is only ever called, by its enclosing function:
+        its free variables are the caller's own, so the body can stand at
+        the call sites as it is."""
+        name = node.name
+        calls, other = [], False
+        for n in ast.walk(parent):
+            if n is node:
+                continue
+            if isinstance(n, ast.Name) and n.id == name:
+                other = True            # decided below
+        by_func = {}
+        for n in ast.walk(parent):
+            if isinstance(n, ast.Call) and isinstance(n.func, ast.Name) and \
+                    n.func.id == name:
+                by_func[id(n.func)] = n
+        inside = {id(x) for x in ast.walk(node)}
+        for n in ast.walk(parent):
+            if isinstance(n, ast.Name) and n.id == name and \
+                    id(n) not in inside:
+                if id(n) not in by_func:
+                    return False        # used as a value (key=..., return)
+                calls.append(by_func[id(n)])
+            if isinstance(n, ast.arg) and n.arg == name:
+                return False
+        if not calls:
+            return False
+        # calls must come after the definition (statement order)
+        order = {id(x): i for i, x in enumerate(ast.walk(parent))}
+        want = {id(c) for c in calls}
+        done = set()
+        tag = name.strip('_')
+        idents = _idents(parent) - {name}
+        scopes = [parent] + [x for x in ast.walk(parent)
+                             if isinstance(x, (ast.FunctionDef,
+                                               ast.AsyncFunctionDef))
+                             and x is not parent and x is not node]
+        expr_helper = _as_expression(_body_wo_doc(node)) is not None
+        decides = any(isinstance(st, ast.If) for st in _body_wo_doc(node))
+        for scope in scopes:
+            here = [n for n in self._walk_scope(scope)
+                    if isinstance(n, ast.Call) and id(n) in want]
+            if not here:
+                continue
+            if decides or not expr_helper:
+                self._rewrite_blocks(scope, node, 'func', want - done,
+                                     idents, tag, done)
+            if expr_helper:
+                for call in here:
+                    if id(call) in done:
+                        continue
+                    try:
+                        pre, b = _instantiate(node, 'func', call, idents,
+                                              tag, as_expr=True)
+                    except _Site:
+                        continue
+                    if pre:
+                        continue
+                    new = ast.copy_location(b[0].value, call)
+                    _Replace(call, new).visit(scope)
+                    done.add(id(call))
+            if not all(id(c) in done for c in here):
+                self._rewrite_blocks(scope, node, 'func', want - done,
+                                     idents, tag, done)
+        if done and done == want:
+            container = self._container_of(self.trees[path], node)
+            if container is not None and node in container:
+                container.remove(node)
+                if not container:
+                    container.append(_pass(node))
+            self.log.append((q, len(done), True))
+        elif done:
+            self.log.append((q, len(done), False))
+        for t in self.trees.values():
+            ast.fix_missing_locations(t)
+        return bool(done)
 
     # one helper
     def _inline(self, path, q, kind, owner, node):
@@ -971,8 +1078,9 @@ class _Desugar(ast.NodeTransformer):
             else:
                 out.extend(rep)
                 self.count += 1
-        return self._walrus(self._unroll(self._accumulate(
-            self._devirtualise(out))))
+        out = self._first_match(self._walrus(self._unroll(
+            self._accumulate(self._devirtualise(out)))))
+        return self._conditional_assign(self._match_literals(out))
 
     def generic_visit(self, node):
         for name in _BLOCKS:
@@ -981,6 +1089,8 @@ class _Desugar(ast.NodeTransformer):
                 setattr(node, name, self._block(lst))
         for h in getattr(node, 'handlers', []) or []:
             h.body = self._block(h.body)
+        for case in getattr(node, 'cases', []) or []:
+            case.body = self._block(case.body)
         return node
 
     def _devirtualise(self, stmts):
@@ -1088,6 +1198,140 @@ class _Desugar(ast.NodeTransformer):
             i += 1
         return out
 
+    def _match_literals(self, stmts):
+        """match s: case 'a': A; case 'b' | 'c': B; case _: C   (literal
+        patterns only, plain subject)  ->  if s == 'a': A elif s in ('b',
+        'c'): B else: C"""
+        out = []
+        for st in stmts:
+            new = self._match_to_if(st) if isinstance(st, ast.Match) else None
+            if new is None:
+                out.append(st)
+            else:
+                out.append(new)
+                self.count += 1
+        return out
+
+    @staticmethod
+    def _match_to_if(st):
+        subj = st.subject
+        if not _simple_arg(subj):
+            return None
+
+        def values(p):
+            if isinstance(p, ast.MatchValue) and \
+                    isinstance(p.value, ast.Constant):
+                return [p.value]
+            if isinstance(p, ast.MatchSingleton):
+                return [ast.Constant(value=p.value)]
+            if isinstance(p, ast.MatchOr):
+                vs = [values(x) for x in p.patterns]
+                if all(v is not None for v in vs):
+                    return [x for v in vs for x in v]
+            return None
+        arms = []
+        for case in st.cases:
+            wild = isinstance(case.pattern, ast.MatchAs) and \
+                case.pattern.pattern is None and case.pattern.name is None
+            vs = None if wild else values(case.pattern)
+            if not wild and vs is None:
+                return None
+            if wild:
+                test = case.guard
+            else:
+                import copy as _c
+                if len(vs) == 1:
+                    singleton = isinstance(case.pattern, ast.MatchSingleton)
+                    test = ast.Compare(
+                        left=_c.deepcopy(subj),
+                        ops=[ast.Is() if singleton else ast.Eq()],
+                        comparators=[vs[0]])
+                else:
+                    test = ast.Compare(
+                        left=_c.deepcopy(subj), ops=[ast.In()],
+                        comparators=[ast.Tuple(elts=vs, ctx=ast.Load())])
+                if case.guard is not None:
+                    test = ast.BoolOp(op=ast.And(),
+                                      values=[test, case.guard])
+            arms.append((test, case.body))
+        node = None
+        for test, body in reversed(arms):
+            if test is None:
+                node = body                      # unconditional `case _`
+            else:
+                node = [ast.copy_location(ast.If(
+                    test=test, body=body,
+                    orelse=node if node is not None else []), st)]
+        if node is None:
+            return None
+        if len(node) != 1 or not isinstance(node[0], ast.If):
+            return None
+        return node[0]
+
+    def _conditional_assign(self, stmts):
+        """x = a if c else b   ->   if c: x = a  else: x = b"""
+        out = []
+        for st in stmts:
+            if isinstance(st, ast.Assign) and isinstance(st.value, ast.IfExp):
+                import copy as _c
+                v = st.value
+
+                def mk(val):
+                    return self._conditional_assign([ast.copy_location(
+                        ast.Assign(targets=_c.deepcopy(st.targets),
+                                   value=val, lineno=st.lineno), st)])
+                out.append(ast.copy_location(ast.If(
+                    test=v.test, body=mk(v.body), orelse=mk(v.orelse)), st))
+                self.count += 1
+            else:
+                out.append(st)
+        return out
+
+    def _first_match(self, stmts):
+        """x = next((e for t in it if c), d)
+             ->   x = d
+                  for t in it:
+                      if c: x = e; break
+        (the search loop a `next(generator, default)` abbreviates)."""
+        out = []
+        for st in stmts:
+            v = st.value if isinstance(st, ast.Assign) else None
+            if isinstance(v, ast.Call) and isinstance(v.func, ast.Name) and \
+                    v.func.id == 'next' and len(v.args) == 2 and \
+                    not v.keywords and \
+                    isinstance(v.args[0], ast.GeneratorExp) and \
+                    len(v.args[0].generators) == 1 and \
+                    not v.args[0].generators[0].is_async and \
+                    len(st.targets) == 1 and \
+                    isinstance(st.targets[0], ast.Name):
+                import copy as _c
+                g = v.args[0].generators[0]
+                tgt = _c.deepcopy(g.target)
+                for n in ast.walk(tgt):
+                    if isinstance(n, ast.Name):
+                        n.ctx = ast.Store()
+
+                def loc(n):
+                    return ast.copy_location(n, st)
+                found = [loc(ast.Assign(targets=_c.deepcopy(st.targets),
+                                        value=v.args[0].elt,
+                                        lineno=st.lineno)),
+                         loc(ast.Break())]
+                body = found
+                if g.ifs:
+                    test = g.ifs[0] if len(g.ifs) == 1 else \
+                        ast.BoolOp(op=ast.And(), values=list(g.ifs))
+                    body = [loc(ast.If(test=test, body=found, orelse=[]))]
+                out.append(loc(ast.Assign(targets=st.targets,
+                                          value=v.args[1],
+                                          lineno=st.lineno)))
+                out.append(loc(ast.For(target=tgt, iter=g.iter, body=body,
+                                       orelse=[], lineno=st.lineno)))
+                self.count += 1
+                continue
+            out.append(st)
+        return out
+
     def _walrus(self, stmts):
         """if (m := f(x)) is None: ...   ->   m = f(x); if m is None: ...
         (when the assignment expression is the first thing the test
@@ -1141,9 +1385,19 @@ class _Desugar(ast.NodeTransformer):
                 it = st.iter
                 if isinstance(it, ast.Name):
                     it = self.consts.get(it.id)
+                    if it is not None and not all(
+                            isinstance(e, ast.Constant)
+                            for e in getattr(it, 'elts', [None])):
+                        it = None   # a registry of classes stays a loop
                 if isinstance(it, (ast.Tuple, ast.List)) and \
                         1 <= len(it.elts) <= 6 and all(
-                            isinstance(e, ast.Constant) for e in it.elts):
+                            isinstance(e, ast.Constant) or (
+                                isinstance(e, ast.Name) and not any(
+                                    isinstance(n, ast.Name) and
+                                    n.id == e.id and
+                                    isinstance(n.ctx, (ast.Store, ast.Del))
+                                    for b in st.body for n in ast.walk(b)))
+                            for e in it.elts):
                     seq = it.elts
             if seq is None or any(
                     isinstance(n, (ast.Break, ast.Continue))
@@ -1247,6 +1501,12 @@ def module_constants(tree):
             return literal(e.left) and literal(e.right)
         if isinstance(e, ast.JoinedStr):
             return all(isinstance(v, ast.Constant) for v in e.values)
+        if isinstance(e, ast.Call) and isinstance(e.func, ast.Attribute) and \
+                isinstance(e.func.value, ast.Name) and \
+                e.func.value.id == 're' and e.func.attr == 'compile' and \
+                e.args and all(literal(a) or isinstance(a, ast.Attribute)
+                               for a in e.args) and not e.keywords:
+            return True         # a compiled pattern is as good as its text
         return False
     count = {}
     for st in tree.body:
